@@ -220,7 +220,7 @@ def mk_segment(el, unit, fsr, label):
 
 def mk_bbox(el, label):
     on, off, lo, hi = el
-    if all(float(v) == int(v) for v in el) and int(on + off) % 2 == 0:
+    if all(float(v) == int(v) for v in el) and (POS_LABELS.index(label) % 2 == 0 if label in POS_LABELS else True):
         # whole numbers handed over as Python ints (what a CSV reader that infers integer columns produces)
         return crowsetta.BBox(onset=int(on), offset=int(off), low_freq=int(lo), high_freq=int(hi), label=label)
     return crowsetta.BBox(onset=float(on), offset=float(off), low_freq=float(lo), high_freq=float(hi), label=label)
